@@ -562,11 +562,19 @@ def r_bondtype(ctx) -> RuleResult:
     bt_k = ctx.repo.const("tucan.graph_attributes", "BOND_TYPE")
 
     def consts_of(f_):
+        import re as _re
         out_ = {}
         for nm in {x.id for x in ast.walk(f_.node) if isinstance(x, ast.Name)}:
             v = try_const(ctx, f_, ast.Name(nm, ast.Load()), default=None)
             if v is not None:
                 out_.setdefault(nm, v)
+            else:
+                pat = regex_of(ctx, f_, ast.Name(nm, ast.Load())) if nm not in params_of(f_.node) else None
+                if pat is not None:
+                    try:
+                        out_.setdefault(nm, _re.compile(pat))
+                    except _re.error:
+                        pass
         return out_
     for ver, types in (("V2000", V2000_BOND_TYPES), ("V3000", V3000_BOND_TYPES)):
         ent = reader_entries(ctx)[ver]
